@@ -5,6 +5,7 @@ import (
 	"go/ast"
 	"go/token"
 	"go/types"
+	"golang.org/x/tools/go/ssa"
 	"math/big"
 	"sort"
 	"strings"
@@ -438,6 +439,7 @@ func (c *Ctx) helperValues() {
 	}
 	run.Floor("helper_values", 27)
 	c.checkStepSpecs([]stepSpec{sinceSpec})
+	c.countValues()
 	c.chanToSliceStartsEmpty()
 }
 
@@ -693,4 +695,95 @@ func intSafeAtom(e sym.Expr) string {
 		return "ite(" + intSafeKey(x.Cond) + ", " + intSafeKey(x.A) + ", " + intSafeKey(x.B) + ")"
 	}
 	return sym.String(e)
+}
+
+// countValues: helper.Count emits from, from+1, from+2, … - one value per element of the other
+// stream. On the SSA form of its goroutine: every value sent is the loop-carried counter, a phi
+// of the start value `from` itself (the captured parameter, not something recomputed from it)
+// and of that same counter plus the constant 1.
+func (c *Ctx) countValues() {
+	run := c.Run
+	fi := c.fn("helper", "", "Count")
+	if fi == nil {
+		return
+	}
+	fn := c.ssaFunc(fi)
+	why := ""
+	sends := 0
+	if fn == nil {
+		why = "no SSA form (undecided, fails closed)"
+	} else {
+		strip := func(v ssa.Value) ssa.Value {
+			for {
+				switch x := v.(type) {
+				case *ssa.ChangeType:
+					v = x.X
+				case *ssa.Convert:
+					v = x.X
+				case *ssa.UnOp:
+					if x.Op != token.MUL {
+						return v
+					}
+					v = x.X // a load of the captured variable
+				default:
+					return v
+				}
+			}
+		}
+		isFrom := func(v ssa.Value) bool {
+			v = strip(v)
+			switch x := v.(type) {
+			case *ssa.FreeVar:
+				return len(fn.Params) > 0 && x.Name() == fn.Params[0].Name()
+			case *ssa.Parameter:
+				return len(fn.Params) > 0 && x == fn.Params[0]
+			}
+			return false
+		}
+		funcs := append([]*ssa.Function{fn}, fn.AnonFuncs...)
+		for _, f := range funcs {
+			for _, b := range f.Blocks {
+				for _, in := range b.Instrs {
+					snd, ok := in.(*ssa.Send)
+					if !ok {
+						continue
+					}
+					sends++
+					phi, isPhi := strip(snd.X).(*ssa.Phi)
+					if !isPhi || len(phi.Edges) != 2 {
+						why = "the value sent is not a loop-carried counter"
+						continue
+					}
+					okStart, okStep := false, false
+					for _, e := range phi.Edges {
+						if isFrom(e) {
+							okStart = true
+							continue
+						}
+						if bo, isB := strip(e).(*ssa.BinOp); isB && bo.Op == token.ADD {
+							x, y := strip(bo.X), strip(bo.Y)
+							if cst, isC := y.(*ssa.Const); isC && x == ssa.Value(phi) && cst.Value != nil && cst.Value.ExactString() == "1" {
+								okStep = true
+							}
+							if cst, isC := x.(*ssa.Const); isC && y == ssa.Value(phi) && cst.Value != nil && cst.Value.ExactString() == "1" {
+								okStep = true
+							}
+						}
+					}
+					if !okStart {
+						why = "the counter does not start at the parameter `from` itself"
+					} else if !okStep {
+						why = "the counter is not advanced by adding 1"
+					}
+				}
+			}
+		}
+		if sends == 0 && why == "" {
+			why = "Count no longer sends from its own stage (undecided, fails closed)"
+		}
+	}
+	run.Oblige(why == "")
+	if why != "" {
+		c.violate("helper-model/value", "helper.Count", short(why, 60), fi.Decl.Pos(), "Count must emit from, from+1, from+2, … exactly (also for fractional starts): "+why)
+	}
 }
